@@ -556,3 +556,69 @@ pub fn starts_with_valid_idat(b: &[u8]) -> bool {
     h.update(&b[4..8 + n]);
     h.finalize() == u32::from_be_bytes([b[8 + n], b[9 + n], b[10 + n], b[11 + n]])
 }
+
+/// Independent computation (from the wrapper formats, not from the library) of where a probe that
+/// starts at signature position `i` would look for its data: Some((chunk start, is_png)).
+pub fn probe_target(f: &[u8], i: usize) -> Option<(usize, bool)> {
+    if i + 1 >= f.len() {
+        return None;
+    }
+    match (f[i], f[i + 1]) {
+        (0x78, 0x01) | (0x78, 0x5E) | (0x78, 0x9C) | (0x78, 0xDA) => Some((i + 2, false)),
+        (0x1F, 0x8B) => {
+            // RFC 1952 member header
+            if i + 10 > f.len() || f[i + 2] != 8 {
+                return None;
+            }
+            let flg = f[i + 3];
+            let mut p = i + 10;
+            if flg & 0x04 != 0 {
+                if p + 2 > f.len() {
+                    return None;
+                }
+                let x = u16::from_le_bytes([f[p], f[p + 1]]) as usize;
+                p += 2 + x;
+            }
+            for bit in [0x08u8, 0x10] {
+                if flg & bit != 0 {
+                    loop {
+                        if p >= f.len() {
+                            return None;
+                        }
+                        p += 1;
+                        if f[p - 1] == 0 {
+                            break;
+                        }
+                    }
+                }
+            }
+            if flg & 0x02 != 0 {
+                p += 2;
+            }
+            if p > f.len() {
+                return None;
+            }
+            Some((p, false))
+        }
+        (0x50, 0x4B) => {
+            if i + 30 > f.len() || f[i + 2] != 3 || f[i + 3] != 4 || f[i + 8] != 8 || f[i + 9] != 0 {
+                return None;
+            }
+            let n = u16::from_le_bytes([f[i + 26], f[i + 27]]) as usize;
+            let x = u16::from_le_bytes([f[i + 28], f[i + 29]]) as usize;
+            let p = i + 30 + n + x;
+            if p > f.len() {
+                return None;
+            }
+            Some((p, false))
+        }
+        (0x49, 0x44) => {
+            if i >= 4 {
+                Some((i - 4, true))
+            } else {
+                None
+            }
+        }
+        _ => None,
+    }
+}
